@@ -1,8 +1,9 @@
 import Driver.Codec
+import Driver.CmdC10
 /-
   Driver.Extra — per-property command handlers living in their own files (`Driver/CmdCxx.lean`).
   Each returns `none` for commands that are not its own.
 -/
 open Lean
 
-def extraHandlers : List (String → Json → Option (Except String Json)) := []
+def extraHandlers : List (String → Json → Option (Except String Json)) := [handleC10]
